@@ -1,15 +1,144 @@
 (* C03 - Concurrent hash set/map: linearizable insert-if-absent, one winner per key.
-   Only statements; proofs are `exact <lemma of HC/HCProofs.v>`.  `Reach hash cap grow progs s` = "s is reachable from the
-   initial state of client programs `progs` (any number of threads, any mix of emplace/find) on a container of initial
-   capacity `cap` (None = default-constructed placeholder) under SOME schedule"; `hash` is an arbitrary function, so every
-   theorem is quantified over all schedules, all programs, all hash functions (colliding hashes, equal tags), all
-   capacities and any number of growth steps.  (work in progress: results-level theorems follow) *)
+   Only statements; proofs are `exact <lemma of HC/HCProofs.v>`.
+
+   `Reach hash cap grow progs s` = "s is reachable, under SOME schedule, from the initial state of client programs
+   `progs` (any number of threads, each any sequence of OEmp k v = emplace/insert/try_emplace/operator[] and
+   OFind k = find/contains) on a container with initial capacity `cap` (None = default-constructed placeholder),
+   fixed (grow = false) or growing (grow = true)".  `hash` is an arbitrary function Z -> Z.  So every theorem below is
+   quantified over all schedules, all programs and thread counts, all hash functions (colliding hashes, equal 7-bit
+   tags), all initial capacities and any number of chained growth steps.  `event s t i o r` = "the i-th operation `o`
+   of thread t has returned r in s".  One model step = one shared access of the C++ code (see HC/HCModel.v).
+
+   PROVED at full strength: at most one successful insertion per key (c03_one_winner); all insertions and lookups of a
+   key return the same slot, fully constructed, holding the winner's argument (c03_same_element, c03_winner_value); a
+   key lives in at most one slot of the whole chain (c03_key_in_one_slot: growth never duplicates); tags / constructed
+   elements / claims never change and tables are only appended (c03_bytes_monotone: growth never drops, and the
+   byte-wise justification for torn SIMD group loads: EMPTY -> BUSY -> tag); a published tag implies a constructed
+   element with that tag, no comparison ever reads raw storage, no slot is constructed twice
+   (c03_published_implies_constructed, c03_constructed_once); the chain/probe invariant (c03_key_position: every table,
+   group and byte the key's probe examines before its slot is a tag of another constructed key).
+
+   PARTIAL (the proved part is named ..._partial, the full statement is the Definition named in the comment and is NOT
+   proved):
+   * c03_find_after_insert_partial: once an insertion of k has returned, in every later state of every continuation
+     schedule k's tag stays published at a position of k's own probe sequence that addresses the returned slot, and the
+     slot keeps the element; together with c03_key_position (no free byte before it) this is the state-level content of
+     "a lookup that starts later never misses it".  Missing: the induction over the steps of the later lookup thread
+     (HCProofs.find_after_insert_stmt, with begin/end stamps).
+   * c03_full_fixed_fails_clean is proved except for one arithmetic link: "every byte of every group of the key's probe
+     sequence is a tag" is stated over the key's own probe sequence; that this sequence covers every bucket of the table
+     (so the table is completely full) is proved for the same regenerated formulas under C18 (HSProofs.tri_surj).
+   * c03_one_winner gives "at most one"; "exactly one in a finished run" (HCProofs.exactly_one_winner_stmt) is not
+     proved (needs the link claim -> finished owner). *)
 From Coq Require Import ZArith List Bool.
 Require Import Verif.Gen.Gen_hash_table Verif.Gen.Gen_hash_table_conc Verif.Conc.Machine Verif.HS.HSModel
                Verif.HC.HCModel Verif.HC.HCProofs.
 Import ListNotations.
 Local Open Scope Z_scope.
 
+(* for each key at most one insertion reports success *)
+Theorem c03_one_winner : forall hash cap g progs s t1 i1 o1 n1 x1 s1 t2 i2 o2 n2 x2 s2,
+  Reach hash cap g progs s ->
+  event s t1 i1 o1 (REmp n1 x1 true s1) -> event s t2 i2 o2 (REmp n2 x2 true s2) -> okey o1 = okey o2 ->
+  t1 = t2 /\ i1 = i2.
+Proof. exact hc_one_winner. Qed.
+Print Assumptions c03_one_winner.
+
+(* all insertions and lookups of a key return the same slot and saw the same fully constructed element of that key *)
+Theorem c03_same_element : forall hash cap g progs s t1 i1 o1 r1 n1 x1 s1 t2 i2 o2 r2 n2 x2 s2,
+  Reach hash cap g progs s ->
+  event s t1 i1 o1 r1 -> event s t2 i2 o2 r2 -> okey o1 = okey o2 ->
+  slot_of r1 = Some (n1, x1, s1) -> slot_of r2 = Some (n2, x2, s2) ->
+  n1 = n2 /\ x1 = x2 /\ s1 = s2 /\ exists v, s1 = Some (okey o1, v).
+Proof. exact hc_same_element. Qed.
+Print Assumptions c03_same_element.
+
+(* ... and that element was constructed from the winner's arguments *)
+Theorem c03_winner_value : forall hash cap g progs s t i k v n x seen,
+  Reach hash cap g progs s -> event s t i (OEmp k v) (REmp n x true seen) -> seen = Some (k, v).
+Proof. exact hc_winner_value. Qed.
+Print Assumptions c03_winner_value.
+
+(* automatic growth never duplicates a key: a key lives in at most one slot of the whole chain *)
+Theorem c03_key_in_one_slot : forall hash cap g progs s n1 t1 i1 n2 t2 i2 k v1 v2,
+  Reach hash cap g progs s -> nth_error (tabs s) n1 = Some t1 -> nth_error (tabs s) n2 = Some t2 ->
+  cvals t1 i1 = Some (k, v1) -> cvals t2 i2 = Some (k, v2) -> n1 = n2 /\ i1 = i2.
+Proof. exact hc_key_one_slot. Qed.
+Print Assumptions c03_key_in_one_slot.
+
+(* growth never drops a key and bytes are monotone: along every continuation schedule the tables stay where they are,
+   a control byte is EMPTY, BUSY or a tag (or the table is the placeholder), a tag never changes, BUSY only becomes a
+   tag, a constructed element never changes *)
+Theorem c03_bytes_monotone : forall hash cap g progs s sch n tn,
+  Reach hash cap g progs s -> nth_error (tabs s) n = Some tn ->
+  exists tn', nth_error (tabs (Machine.run st (step hash) s sch)) n = Some tn' /\ cmask tn' = cmask tn /\
+    (forall p, cctrl tn p = EMPTY_CONTROL \/ cctrl tn p = cBUSY \/ 0 <= cctrl tn p \/ cdummy tn = true) /\
+    (forall p, 0 <= cctrl tn p -> cctrl tn' p = cctrl tn p) /\
+    (forall p, cctrl tn p = cBUSY -> cctrl tn' p = cBUSY \/ 0 <= cctrl tn' p) /\
+    (forall i e, cvals tn i = Some e -> cvals tn' i = Some e).
+Proof. exact hc_bytes_monotone. Qed.
+Print Assumptions c03_bytes_monotone.
+
+(* an element is constructed before its tag is visible (at the slot or at its mirror) *)
+Theorem c03_published_implies_constructed : forall hash cap g progs s n tn p,
+  Reach hash cap g progs s -> nth_error (tabs s) n = Some tn -> 0 <= cctrl tn p ->
+  exists k v, cvals tn (Z.land p (cmask tn)) = Some (k, v) /\ cctrl tn p = emp_checker (hash k).
+Proof. exact hc_published_constructed. Qed.
+Print Assumptions c03_published_implies_constructed.
+
+(* no key comparison ever reads a slot that is not constructed; no slot is constructed twice *)
+Theorem c03_constructed_once : forall hash cap g progs s,
+  Reach hash cap g progs s -> bad_read s = false /\ dbl_cons s = false.
+Proof. exact hc_constructed_once. Qed.
+Print Assumptions c03_constructed_once.
+
+(* chain / probe invariant: whatever the probe of a stored key examines before its slot - every earlier table of the
+   chain, every earlier group, every earlier byte of its group - is the tag of a constructed element of another key *)
+Theorem c03_key_position : forall hash cap g progs s n tn i k v,
+  Reach hash cap g progs s -> nth_error (tabs s) n = Some tn -> cvals tn i = Some (k, v) ->
+  exists j o, In o offsets /\ i = Z.land (pb hash tn k j + o) (cmask tn) /\
+              emp_loop_cond (ps hash tn k j) (cmask tn) = true /\ before hash (tabs s) k n j o.
+Proof. exact hc_key_position. Qed.
+Print Assumptions c03_key_position.
+
+Theorem c03_find_after_insert_partial : forall hash cap g progs s sch t i o n x ins seen,
+  Reach hash cap g progs s -> event s t i o (REmp n x ins seen) ->
+  exists tn' v j c, nth_error (tabs (Machine.run st (step hash) s sch)) n = Some tn' /\
+    seen = Some (okey o, v) /\ cvals tn' x = Some (okey o, v) /\ In c offsets /\
+    emp_loop_cond (ps hash tn' (okey o) j) (cmask tn') = true /\ Z.land (pb hash tn' (okey o) j + c) (cmask tn') = x /\
+    cctrl tn' (pb hash tn' (okey o) j + c) = emp_checker (hash (okey o)).
+Proof. exact hc_insert_stays_visible. Qed.
+Print Assumptions c03_find_after_insert_partial.
+
+(* insertion into a full fixed table fails without consuming its arguments: the failing operation is an insertion, it
+   never took the construction step (the only step that consumes), and every byte of every group of its probe sequence
+   in the head table is the tag of a constructed element of another key *)
+Theorem c03_full_fixed_fails_clean : forall hash cap g progs s t i o,
+  Reach hash cap g progs s -> event s t i o RFull ->
+  ~ In (t, i) (consumed s) /\ is_find o = false /\
+  exists t0, nth_error (tabs s) 0 = Some t0 /\ tab_passed hash t0 (okey o).
+Proof. intros hash cap g progs s t i o R E. split; [exact (hc_full_no_consume hash cap g progs s t i o R E)|exact (hc_full_fails hash cap g progs s t i o R E)]. Qed.
+Print Assumptions c03_full_fixed_fails_clean.
+
+(* the memory orders the argument relies on are the ones in the source (regenerated site tables): acquire fence after
+   the group load, acquire CAS, release stores of the tag, acquire load / acq_rel CAS of the next pointer *)
 Theorem c03_memory_order_obligations : orders_ok = true.
 Proof. exact hc_orders_ok. Qed.
 Print Assumptions c03_memory_order_obligations.
+
+(* non-vacuity: a reachable finished state with a winner, a loser returning the winner's element, a lookup after the
+   insertion that finds it and a concurrent lookup that misses; and a full fixed table whose 17th insertion fails *)
+Example c03_reach_example : Reach (fun k => k) (Some 16) true ex_progs ex_state.
+Proof. exact hc_example_reach. Qed.
+Example c03_events_example :
+  all_done ex_state = true /\
+  map (fun th => map (fun x => fst (fst x)) (results th)) (threads ex_state) =
+  [[REmp 0 0 true (Some (1, 10))];
+   [REmp 0 0 false (Some (1, 10)); RFind (Some (0%nat, 0)) (Some (1, 10)) true];
+   [RFind None None false]].
+Proof. exact hc_example_events. Qed.
+Example c03_full_example_reach : Reach (fun _ => 5) (Some 16) false ex_full_progs ex_full_state.
+Proof. exact hc_example_full_reach. Qed.
+Example c03_full_example :
+  map (fun th => nth_error (map (fun x => fst (fst x)) (results th)) 16) (threads ex_full_state) = [Some RFull].
+Proof. exact hc_example_full. Qed.
